@@ -39,6 +39,7 @@ from fortls.ftypes import (
 )
 from fortls.helper_functions import (
     detect_fixed_format,
+    eval_pp_expr,
     find_paren_match,
     find_word_in_line,
     get_paren_level,
@@ -2074,7 +2075,7 @@ def preprocess_file(
         out_line = replace_defined(text)
         out_line = replace_vars(out_line)
         try:
-            line_res = eval(replace_ops(out_line))
+            line_res = eval_pp_expr(replace_ops(out_line))
         except:
             return False
         else:
